@@ -90,13 +90,14 @@ pub fn params_of(env: &Env, c: &Case) -> (ForgeParams, Attack) {
     }
     let log_last = t - sum;
     let cexp = if c.c % 4 == 0 { 2 } else { 1 };
-    let strategy = match c.strategy % 6 {
+    let strategy = match c.strategy % 7 {
         0 => Attack::S0Truthful,
         1 => Attack::S1ExtraOods(2 + c.sp % 7),
         2 => Attack::S5Lie(c.sp % 4),
         3 => Attack::S2FriDomain(c.sp % 3),
         4 => Attack::S4UnboundLayers,
-        _ => Attack::S3ModularBlowup(c.sp),
+        5 => Attack::S3ModularBlowup(c.sp),
+        _ => Attack::S7UncommittedOpenings(c.sp),
     };
     let p = ForgeParams {
         layout: layout.to_string(),
@@ -141,6 +142,7 @@ pub fn check(env: &Env, c: &Case) -> Outcome {
         Attack::S2FriDomain(_) => "S2_fri_domain_declared_larger",
         Attack::S4UnboundLayers => "S4_unbound_inner_layers",
         Attack::S3ModularBlowup(_) => "S3_modular_blowup",
+        Attack::S7UncommittedOpenings(t) => ["S7_uncommitted_openings_original", "S7_uncommitted_openings_interaction", "S7_uncommitted_openings_composition"][*t as usize % 3],
     };
     let class = format!("{}/{}", p.layout, sname);
     let forged = match guarded(false, || forge_for(env, &p, &strat)) {
@@ -200,7 +202,7 @@ pub fn check(env: &Env, c: &Case) -> Outcome {
 pub fn strategy() -> impl Strategy<Value = Case> {
     (
         (any::<u8>(), any::<u8>(), any::<u8>(), proptest::collection::vec(any::<u8>(), 1..8), any::<u8>(), any::<u8>(), any::<u8>(), any::<u64>()),
-        (prop_oneof![2 => Just(0u8), 2 => Just(1u8), 3 => Just(2u8), 1 => Just(3u8), 2 => Just(4u8), 1 => Just(5u8)], any::<u8>(), prop_oneof![3 => Just(vec![]), 1 => proptest::collection::vec((any::<u16>(), any::<u8>(), any::<u8>()), 1..=2)]),
+        (prop_oneof![2 => Just(0u8), 2 => Just(1u8), 3 => Just(2u8), 1 => Just(3u8), 2 => Just(4u8), 1 => Just(5u8), 3 => Just(6u8)], any::<u8>(), prop_oneof![3 => Just(vec![]), 1 => proptest::collection::vec((any::<u16>(), any::<u8>(), any::<u8>()), 1..=2)]),
     )
         .prop_map(|((layout, dt, c, steps_sel, nvf, queries, pow, seed), (strategy, sp, noise))| Case { layout, dt, c, steps_sel, nvf, queries, pow, seed, strategy, sp, noise })
 }
@@ -227,4 +229,4 @@ pub fn replay(ctx: &Ctx, v: &Value) -> Result<Outcome, String> {
     Ok(check(&e, &c))
 }
 
-pub const RULE: &str = "proofs built by the harness's forging prover for a statement that is false by construction (PRF low-degree trace columns; the harness evaluates the composition identity on the true openings and only counts cases where it is false). Generated dimensions: layout (quick: recursive, recursive_with_poseidon, dex, small; thorough + starknet), trace size (layout minimum, +1), blow-up 1..3, FRI step list, last-layer bound, friendly-layer count (0, 3, mid, height, height+1, 100), 1..12 queries, PoW bits 20..21, and an attack strategy: S0 truthful openings; S1 2..8 extra out-of-domain values decoupling checked and opened composition values; S5 lies in 0..3 mask openings with one composition opening solved so the OODS check passes; S2 FRI declared (with padded trees and a full-interpolant last layer) for a domain larger than the evaluation domain; S3 blow-up exponent p-m taken modulo the field (evaluation domain smaller than the trace domain); S4 arbitrary inner-layer commitments with sibling leaves chosen adaptively after the queries; S6 on top 0..2 noise edits of configuration numbers and vector lengths. Oracle: StarkProof::verify must not return Ok. Positive control (mandatory, per layout): the same skeleton with truthful openings must be accepted by stark_verify (decommitments + DEEP + FRI). Non-trivial = identity verified false; distinct by case hash";
+pub const RULE: &str = "proofs built by the harness's forging prover for a statement that is false by construction (PRF low-degree trace columns; the harness evaluates the composition identity on the true openings and only counts cases where it is false). Generated dimensions: layout (quick: recursive, recursive_with_poseidon, dex, small; thorough + starknet), trace size (layout minimum, +1), blow-up 1..3, FRI step list, last-layer bound, friendly-layer count (0, 3, mid, height, height+1, 100), 1..12 queries, PoW bits 20..21, and an attack strategy: S0 truthful openings; S1 2..8 extra out-of-domain values decoupling checked and opened composition values; S5 lies in 0..3 mask openings with one composition opening solved so the OODS check passes; S2 FRI declared (with padded trees and a full-interpolant last layer) for a domain larger than the evaluation domain; S3 blow-up exponent p-m taken modulo the field (evaluation domain smaller than the trace domain); S4 arbitrary inner-layer commitments with sibling leaves chosen adaptively after the queries; S7 FRI run honestly on an arbitrary low-degree polynomial and, after the queries, one decommitted cell per queried row of the original / interaction / composition table set to the value that makes the DEEP quotient agree (an opening that is not the committed one); S6 on top 0..2 noise edits of configuration numbers and vector lengths. Oracle: StarkProof::verify must not return Ok. Positive control (mandatory, per layout): the same skeleton with truthful openings must be accepted by stark_verify (decommitments + DEEP + FRI). Non-trivial = identity verified false; distinct by case hash";
